@@ -1,1 +1,86 @@
-(* C11 -- theorems to be stated here. *)
+(* C11 -- a keystream never wraps around silently.
+   For the CTR flavours (w-bit counter: 2^w - 1 blocks) and BelT-CTR (2^128 - 1 blocks):
+   (1) a request succeeds iff it fits, and fitting is exactly "byte offset + length <= (2^w-1)*bs";
+       a request that does not fit is Err and nothing changes (the model's Err carries no new state);
+   (2) remaining_blocks is exact: the core at block p reports (2^w - 1 - p) (None only above usize);
+   (3) every byte of a successful request is xored with the keystream byte of its own byte offset, in a
+       block with index < 2^w - 1; distinct counter values give distinct counter blocks (C04), so no
+       counter block serves two positions;
+   (4) known finding F2 (refuted case): a seek INTO block index 2^w - 1 is accepted by
+       cipher::StreamCipherCoreWrapper and wraps; all statements above assume positions reached by
+       seeks satisfy [below] / [upto] (C10). *)
+From BM Require Import BlockModes Plumbing Toy Ints Ints_proofs Ctr Belt Stream Cts Stream_proofs Ctr_proofs Interp Interp_proofs
+  Wrapper_proofs Wrapper_inst F2.
+From Coq Require Import ZArith.
+
+Theorem C11_ctr_request : forall cs be (C : cipher) (nonce : list N), cipher_wf C -> c_bs C = cs * length nonce ->
+  forall nb wst (al : bool) (inb outb : list N), CtrInv cs be C nonce nb wst ->
+  length inb = length outb -> (al = true -> inb = outb) -> (N.of_nat (length outb) <= usize_max)%N ->
+  let K := kscore C (SCtr cs be) in
+  let n := length outb in
+  let src := if al then outb else inb in
+  (fits K (ctr_limit cs) nb (wr_pos wst) n ->
+     exists wst', try_apply K wst al inb outb = Ok (wst', xorb src (take K (ctr_KB cs be C nonce) n nb (wr_pos wst))) /\
+                  CtrInv cs be C nonce (fst (adv K n nb (wr_pos wst))) wst' /\
+                  wr_pos wst' = snd (adv K n nb (wr_pos wst))) /\
+  (~ fits K (ctr_limit cs) nb (wr_pos wst) n -> try_apply K wst al inb outb = Err).
+Proof. intros. eapply ctr_apply_spec; eauto. Qed.
+Print Assumptions C11_ctr_request.
+
+Theorem C11_belt_request : forall (C : cipher) si, cipher_wf C -> c_bs C = 16 -> (si < pow2 128)%N ->
+  forall nb wst (al : bool) (inb outb : list N), BeltInv C si nb wst ->
+  length inb = length outb -> (al = true -> inb = outb) -> (N.of_nat (length outb) <= usize_max)%N ->
+  let K := kscore C SBelt in
+  let n := length outb in
+  let src := if al then outb else inb in
+  (fits K belt_limit nb (wr_pos wst) n ->
+     exists wst', try_apply K wst al inb outb = Ok (wst', xorb src (take K (belt_KB C si) n nb (wr_pos wst))) /\
+                  BeltInv C si (fst (adv K n nb (wr_pos wst))) wst' /\
+                  wr_pos wst' = snd (adv K n nb (wr_pos wst))) /\
+  (~ fits K belt_limit nb (wr_pos wst) n -> try_apply K wst al inb outb = Err).
+Proof. intros. eapply belt_apply_spec; eauto. Qed.
+Print Assumptions C11_belt_request.
+
+(* "fits" in bytes: with byte offset q = nb*bs - (bs - pos), the request fits iff q + n <= (2^w - 1)*bs;
+   in particular a request ending exactly at the limit fits *)
+Theorem C11_fits_in_bytes : forall cs be (C : cipher) (nonce : list N), cipher_wf C -> c_bs C = cs * length nonce ->
+  forall nb pos n, let K := kscore C (SCtr cs be) in
+  (nb <= pow2 (8 * cs) - 1)%N -> 1 <= pos <= sc_bs K ->
+  (fits K (ctr_limit cs) nb pos n <->
+   (nb * N.of_nat (sc_bs K) + N.of_nat n <= (pow2 (8 * cs) - 1) * N.of_nat (sc_bs K) + N.of_nat (sc_bs K - pos))%N).
+Proof. intros. eapply ctr_fits_bytes; eauto. Qed.
+Print Assumptions C11_fits_in_bytes.
+
+(* remaining_blocks is exact *)
+Theorem C11_remaining_exact : forall cs be (C : cipher) (nonce : list N) p,
+  sc_remaining (kscore C (SCtr cs be)) (ctr_at nonce p) = to_usize (pow2 (8 * cs) - 1 - p) /\
+  (forall si, cipher_wf C -> c_bs C = 16 -> (si < pow2 128)%N -> upto belt_limit p ->
+     sc_remaining (kscore C SBelt) (belt_at si p) = to_usize (pow2 128 - 1 - p)).
+Proof. intros cs be C nonce p. split; [reflexivity|]. intros. eapply belt_rem_at; eauto. Qed.
+Print Assumptions C11_remaining_exact.
+
+(* every keystream byte a fitting request uses lies in a block with index below the limit *)
+Theorem C11_blocks_below_limit : forall (St : Type) (K : score St), 0 < sc_bs K ->
+  forall limit n nb pos L, limit = Some L -> 1 <= pos <= sc_bs K -> (pos < sc_bs K -> (1 <= nb)%N) ->
+  fits K limit nb pos n ->
+  Forall (fun c => (fst c < L)%N /\ snd c < sc_bs K) (cells_at K n nb pos) /\
+  (forall KB, take K KB n nb pos = map (fun c => nth (snd c) (KB (fst c)) 0%N) (cells_at K n nb pos)).
+Proof.
+  intros St K H limit n nb pos L HL Hp Hnb Hfit. split.
+  - eapply cells_below; eauto. unfold fits in Hfit. now rewrite HL in Hfit.
+  - intros KB. apply take_cells.
+Qed.
+Print Assumptions C11_blocks_below_limit.
+
+(* and distinct block indices below 2^w give distinct counter blocks *)
+Theorem C11_counter_blocks_distinct : forall (F : flavor) iv i j, f_cs F <= length iv ->
+  (i < pow2 (f_bits F))%N -> (j < pow2 (f_bits F))%N -> layout F iv i = layout F iv j -> i = j.
+Proof. exact layout_inj. Qed.
+Print Assumptions C11_counter_blocks_distinct.
+
+(* known finding F2: in the (faithful) model too, a seek into block index 2^32 - 1 is accepted and the
+   first keystream block is handed out a second time *)
+Theorem C11_refuted_by_seek_into_last_index : exists first second, f2_run = Some (first, second) /\
+  firstn 4 (skipn 3 second) = firstn 4 first.
+Proof. exact f2_reuse. Qed.
+Print Assumptions C11_refuted_by_seek_into_last_index.
